@@ -24,7 +24,7 @@ def c07(prop, tier, verdict):
         ops = [x['op'] + (':' + x['path'] + ':' + x['sv'] + '/' + x['cv'] if x['op'] == 'establish' else '') for x in sc.get('steps', [])]
         return 'peer:%s:%s' % (line.get('ev'), '>'.join(ops[-3:]))
     pcov, _ = eng_generic.run(prop, tier, verdict, 'Peer', 'peerlife', 'PPeer', pcl, consts={'MaxOps': '6' if tier == 'thorough' else '5', 'Slots': '{1, 2}'}, mc_cfg='Peer_mc.cfg', extra_cfg='VIEW view',
-                              quick_sample=700, min_count=3000, nontrivial=lambda sc: len(sc.get('steps', [])) > 1, label='peerlife')
+                              quick_sample=700, min_count=6000, nontrivial=lambda sc: len(sc.get('steps', [])) > 1, label='peerlife')
     cov['peer_model'] = pcov.get('model'); cov['peer_states'] = pcov.get('states'); cov['peer_scenarios'] = pcov['evaluations']
     cov['traces_validated_against_impl'] += pcov['traces_validated_against_impl']
     cov['evaluations'] += pcov['evaluations']
